@@ -147,6 +147,29 @@ func (*Deb).CheckDebsig
     invariant forall i int :: 0 <= i && i <= rangeindex ==> ranged()[i] != nil && ranged()[i].Data != nil
     decreases 4 - rangeindex
 
+
+// ---------- C10: the control file of a .deb, field by field (static TAG obligations) ----------
+layout Control
+  field "Package" scalar
+  field "Source" scalar
+  field "Version" version
+  field "Architecture" arch
+  field "Maintainer" scalar
+  field "Installed-Size" int
+  field "Multi-Arch" scalar
+  field "Depends" dep
+  field "Recommends" dep
+  field "Suggests" dep
+  field "Breaks" dep
+  field "Replaces" dep
+  field "Built-Using" dep
+  field "Section" scalar
+  field "Priority" scalar
+  field "Homepage" scalar
+  field "Description" scalar
+
+property C10: layout Control
+
 property C13: toDecimal, checkAr, LoadAr, parseArEntry, (*Ar).Next
 property C15: toDecimal, checkAr, LoadAr, parseArEntry, (*Ar).Next, findDeb2Member, loadDeb2, loadDeb
 
